@@ -10,6 +10,7 @@ import (
 	"os"
 	"sort"
 	"strings"
+	"sync"
 	"unicode/utf8"
 
 	"git.defalsify.org/vise.git/cache"
@@ -61,13 +62,17 @@ type cacheEvent struct {
 
 func tokenOf(s string) vtok { return tok(s) }
 
+// (the memo is the harness's own shared state: guarded, so that sessions served side by side race only on what the LIBRARY shares)
 var valCache = map[string]string{}
+var valCacheMu sync.Mutex
 
 func valueOf(id string, n int) string {
 	if n == 0 {
 		return ""
 	}
 	k := fmt.Sprintf("%s/%d", id, n)
+	valCacheMu.Lock()
+	defer valCacheMu.Unlock()
 	v, ok := valCache[k]
 	if !ok {
 		v = strings.Repeat(id, n)
